@@ -983,6 +983,11 @@ where
                 }
             };
 
+            // A previous `format_event` call on this thread may have unwound (for
+            // example, a panicking `Debug` implementation caught by the caller)
+            // before the buffer was cleared below: never start from stale text.
+            buf.clear();
+
             let ctx = self.make_ctx(ctx, event);
             if self
                 .fmt_event
